@@ -100,11 +100,9 @@ def explore(fn, timeout_ms=None):
         try:
             out = fn(symx.CTX); paths += 1
             for name, ob in out:
-                s = z3.Solver(); s.add(*symx.CTX.pc); s.add(z3.Not(ob))
-                if timeout_ms: s.set("timeout", 60000)
-                t1 = time.time(); r = s.check()
+                t1 = time.time(); r, mdl = _decide(list(symx.CTX.pc) + [z3.Not(ob)])
                 if dbg: print(f"   obl {name} {r} {time.time()-t1:.1f}s", flush=True)
-                results.append((name, r, s.model() if r == z3.sat else None))
+                results.append((name, r, mdl))
         except PathEnd:
             pass
         d = symx.CTX.decisions
@@ -254,10 +252,20 @@ class VCX(VC):
     def prove(self, name, t):
         """obligation of the current path (also of paths that end in a cut: those never reach the end of the explored function, so the
         result goes to the case-wide list SIDE instead of self.obl)"""
-        s = z3.Solver(); s.add(*symx.CTX.pc); s.add(z3.Not(t))
-        if SOLVER_TIMEOUT_MS: s.set("timeout", 60000)
-        r = s.check(); SIDE.append((name, r, s.model() if r == z3.sat else None))
+        r, mdl = _decide(list(symx.CTX.pc) + [z3.Not(t)]); SIDE.append((name, r, mdl))
     def fail(self, name): SIDE.append((name, z3.sat, None))
+
+def _decide(constraints):
+    """obligation query: z3 API 60 s; on 'unknown' (nonlinear real arithmetic under load) the portfolio (/usr/bin/z3 4.8.12, cvc5) and a longer API run
+    are tried before the obligation is reported undecided.  Returns (z3 result, model|None)."""
+    s = z3.Solver(); s.add(*constraints); s.set("timeout", 60000)
+    r = s.check()
+    if r != z3.unknown: return r, (s.model() if r == z3.sat else None)
+    from vf import solvers
+    st, m, be, _ = solvers.solve(list(constraints), timeout_ms=240000, order=("z3old", "cvc5", "api"), cli_timeout_s=120)
+    if st == "unsat": return z3.unsat, None
+    if st == "sat": return z3.sat, m
+    return z3.unknown, None
 SIDE = []
 SOLVER_TIMEOUT_MS = 3000           # per feasibility query; an undecided query keeps the path (sound), see CtxU
 
